@@ -1,5 +1,5 @@
 //! builds a real `CompassApp` from generated files and a generated configuration
-use crate::world::net::{coord, Net};
+use crate::world::net::Net;
 use crate::world::sw::{TurnCfg, TURN_CLASSES};
 use routee_compass::app::compass::compass_app::CompassApp;
 use routee_compass::app::compass::compass_app_ops;
@@ -67,8 +67,8 @@ impl AppSpec {
 
     pub fn default_geometry(&self, e: usize) -> Vec<(f32, f32)> {
         let (s, d, _) = self.net.edges[e];
-        let (sx, sy) = coord(s);
-        let (dx, dy) = coord(d);
+        let (sx, sy) = self.net.coord(s);
+        let (dx, dy) = self.net.coord(d);
         // a bend unique to the edge so that every stored geometry is distinguishable
         vec![(sx, sy), ((sx + dx) / 2.0 + 0.001 * (e as f32 + 1.0), (sy + dy) / 2.0 - 0.0005 * (e as f32 + 1.0)), (dx, dy)]
     }
@@ -98,7 +98,7 @@ impl AppSpec {
         let ext = if self.gzip_graph { ".csv.gz" } else { ".csv" };
         let mut v = String::from("vertex_id,x,y\n");
         for i in 0..self.net.n {
-            let (x, y) = coord(i);
+            let (x, y) = self.net.coord(i);
             v.push_str(&format!("{},{},{}\n", i, x, y));
         }
         Self::write(&dir.join(format!("vertices{}", ext)), &v, self.gzip_graph)?;
